@@ -612,6 +612,16 @@ func (fr *Frame) modularCall(x *ssa.Call, callee *ssa.Function, ord int) {
 	pre := fr.st
 	tag := fmt.Sprintf("%s#%d", name, ord)
 	fr.callAsserts(x, name, ord)
+	if cc != nil {
+		for _, gp := range cc.GhostParams {
+			tv, ok := fr.topFrame.specVars[gp.Name]
+			if !ok {
+				vc.addErr("%s: call of %s needs a ghost value for %q (declare a ghostparam or ghostlet of that name in the caller)", fr.label, name, gp.Name)
+				continue
+			}
+			vars[gp.Name] = tv
+		}
+	}
 	// 1. preconditions
 	if cc != nil {
 		env := &SpecEnv{vc: vc, vars: vars, st: pre, old: pre}
@@ -730,13 +740,16 @@ func (fr *Frame) modularCall(x *ssa.Call, callee *ssa.Function, ord int) {
 	}
 	if cc != nil {
 		env := &SpecEnv{vc: vc, vars: rvars, st: post, old: pre}
-		for _, c := range cc.Ensures {
+		for _, c := range append(append([]*Clause{}, cc.Ensures...), cc.Defines...) {
 			tv, err := env.tr(c.E)
 			if err != nil {
 				vc.addErr("%s:%d: ensures (at call in %s): %v", c.File, c.Line, fr.label, err)
 				continue
 			}
 			facts = append(facts, tv.T)
+			if c.Kind == "defines" {
+				vc.note("definition by the code (assumed, justified by purity C13): " + name + ": " + c.Src)
+			}
 		}
 	}
 	if fr.e.typeInvTouches(mod) {
